@@ -300,7 +300,9 @@ func (down *rtpDownTrack) Write(buf []byte) (int, error) {
 	buf2 := ibuf2.([]byte)
 
 	n := copy(buf2, buf)
-	err = codecs.RewritePacket(codec, buf2[:n], setMarker, newseqno, piddelta)
+	// the packetmap counts the picture ids that were dropped, while
+	// RewritePacket adds its delta: shift the id down, not up
+	err = codecs.RewritePacket(codec, buf2[:n], setMarker, newseqno, -piddelta)
 	if err != nil {
 		return 0, err
 	}
